@@ -234,6 +234,7 @@ class StepHarness:
         self.stats = {'paths': 0, 'ref_outcomes': 0, 'queries': 0, 'covers': {}}
         self.entry = None
         self._loc_cache = {}
+        self.max_mismatches = 40
         self.width_table = None      # set by the driver: [(lo, hi, width)] of unicode-width answers != Some(1)
         self.width_keys = []
         self.width_facts = []
@@ -409,6 +410,11 @@ class StepHarness:
         nxt = self.fn(self.L + '_', 'next')
         for kind, s2, val in ex.call_fn(st, nxt, [Ref(0, 'lx')]):
             self.stats['paths'] += 1
+            if len(out) >= self.max_mismatches:
+                return          # enough counterexamples for this definition; the rest is not explored
+            if ex.deadline is not None and time.time() > ex.deadline:
+                from mirse.exec import OverBudget
+                raise OverBudget('time budget for this definition exhausted')
             if kind == 'panic':
                 m = self.best_model(s2.pc)
                 out.append(Mismatch(['panic'], 'next() panics: %s' % val, m, {'trail': trail, 'decisions': tuple(s2.aux.get('decisions', ()))}))
@@ -417,7 +423,7 @@ class StepHarness:
                 self.stats['ref_outcomes'] += 1
                 cond = s2.pc + decs_cond
                 rs2, item, events, info = refout
-                ms = self.compare(s2, val, cond, rs2, item, events, info, ust_before, ndec_before, syms, refst.ms)
+                ms = self.compare(s2, val, cond, rs2, item, events, info, ust_before, ndec_before, syms, refst.ms, refst)
                 for m in ms:
                     m.detail['decisions'] = tuple(s2.aux.get('decisions', ()))
                     m.detail['trail'] = trail + [self.describe(item)]
@@ -495,7 +501,30 @@ class StepHarness:
             return z3.Or(zi(a[0]) != line, zi(a[1]) != col)
         return z3.Or(zi(a[0]) != line, zi(a[1]) != col, zi(a[2]) != byte)
 
-    def compare(self, st, val, cond, rs, item, events, info, ust_before, ndec_before, syms, ms_before=0):
+    def behaves_like_other_ruleset(self, got, rs_before, syms, st):
+        """the implementation's item is what the reference produces from another rule set at the same position
+        (and, by the caller, not what it produces from the active one)"""
+        if rs_before is None or len(self.names) < 2:
+            return False
+        if got[0] == 'tok' and got[1].conc():
+            owner = None
+            for ri, (_, rules) in enumerate(self.d.rulesets):
+                if any(r.gid == got[1].v for r in rules):
+                    owner = ri
+            if owner is not None and owner != rs_before.rho:
+                return True
+        decisions = st.aux.get('decisions', ())
+        for r2 in range(len(self.names)):
+            if r2 == rs_before.rho:
+                continue
+            o = Oracle(syms, decisions)
+            rs2 = RefState(rs_before.p, r2, rs_before.ms, rs_before.done)
+            it2, ev2, inf2 = ref_next(self.d, o, rs2)
+            if got[0] == 'tok' and it2[0] == 'tok' and got[1].conc() and got[1].v == it2[1]:
+                return True
+        return False
+
+    def compare(self, st, val, cond, rs, item, events, info, ust_before, ndec_before, syms, ms_before=0, rs_before=None):
         ex = self.ex
         F = self.F
         out = []
@@ -568,6 +597,12 @@ class StepHarness:
             evs_ = st.events
             if len(evs_) != len(events) or any((not x[0].conc()) or x[0].v != e_[0] for x, e_ in zip(evs_, events)):
                 asp.add('actions')          # an action ran (or did not run) for a match the reference does not select
+            # does the implementation behave like a DIFFERENT rule set than the active one? (wrong rule set entered)
+            try:
+                if self.behaves_like_other_ruleset(got, rs_before, syms, st):
+                    asp.add('ruleset')
+            except (Need, RefAbort):
+                pass
             if got[0] == 'tok':
                 # a token that does not start where this call's match started overlaps / reorders lexemes
                 self.stats['queries'] += 1
